@@ -170,6 +170,20 @@ def check_pair(case) -> Result:
     try:
         check_one(g, gs, hs, case['role'], drive_si, load_si, res, 'g')
         check_one(h, hs, gs, 'slave' if case['role'] == 'master' else 'master', drive_si, load_si, res, 'h')
+        if case.get('deepcopy') and not res.violations:
+            # a deep copy of the mated pair (a user copying a design to try other loads) is judged on its OWN torques
+            import copy
+            g2c, h2c = copy.deepcopy((g, h))
+            d2, l2 = U.si('Torque', *case['deepcopy']['drive']), U.si('Torque', *case['deepcopy']['load'])
+            for x in (g2c, h2c):
+                x.driving_torque = T(*case['deepcopy']['drive'])
+                x.load_torque = T(*case['deepcopy']['load'])
+            n0 = len(res.violations)
+            check_one(g2c, gs, hs, case['role'], d2, l2, res, 'copy of g')
+            check_one(h2c, hs, gs, 'slave' if case['role'] == 'master' else 'master', d2, l2, res, 'copy of h')
+            for v in res.violations[n0:]:
+                v.sig = v.sig + '/deep-copy'
+            res.classes += ('deep-copied',)
         if case.get('h2') and not res.violations:
             # the same gear re-mated with another partner: everything mate-dependent must follow the new mate
             h2s = case['h2']
@@ -303,6 +317,8 @@ def s_pair(draw):
         h = {'type': 'worm', 'n_starts': draw(st.integers(1, 4)), 'helix': hx_worm, 'pressure': [pa, 'deg'],
              'ref_diameter': opt(_qs('Length', -3, -1))}
     case['g'], case['h'] = g, h
+    if draw(st.integers(0, 3)) == 0:
+        case['deepcopy'] = {'drive': draw(_qs('Torque', -3, 3, True)), 'load': draw(_qs('Torque', -3, 3, True))}
     if draw(st.integers(0, 2)) == 0:
         # a second partner for g (re-mating): same compatibility data, other teeth / width / modulus / diameter
         h2 = dict(h)
